@@ -7,18 +7,8 @@ from vlib.props.pgen import gen_model, sfx, variants
 HEAD = '''
 from vlib.h.pipe import *
 
-LAST = {}
-
-
 def layout(specs, groups, tf, fasta_like=False, cuts=None, ends=None, fr=0):
-    START()
-    LAST.clear()
-    LAST.update({"tf": tf, "fr": fr, "cuts": cuts, "ends": ends, "specs": specs, "groups": groups})
-    if PLAIN:
-        true_len = {sp[0]: sum(sp[2]) for sp in specs}
-        t = grid_realisable(tf, fr, cuts, {k: (v, true_len[k]) for k, v in ends.items()})
-        LAST["grid_t"] = t
-        REPLAY_TEXEL[0] = float(t) if t is not None else None
+    model_setup(specs, groups, tf, fr, cuts, ends)
     inp, lay = mk_input(specs, fasta_like)
     prtxt = mk_pretext(groups, tf, fr)
     ba, outs = run_pipeline(inp, prtxt)          # (i) completes without error: any exception = counterexample
@@ -90,29 +80,7 @@ def conditions(tier):
     return out
 
 
-def replay_model(cond, args, kwargs):
-    """re-execute the harness on the unmodified code, through real AGP text for
-    the input and the Pretext map (with the HiC MAP RESOLUTION header and a real
-    texel width on whose grid the cut positions lie, when one exists)"""
-    import traceback
-    ns = {"__name__": "replay_harness"}
-    exec(compile(cond.src, "<harness>", "exec"), ns)
-    fn = ns[cond.fn]
-    try:
-        r = fn(*args, **kwargs)
-        out = {"reproduced": not bool(r), "observed": f"returned {r!r}"}
-    except Exception as e:  # noqa: BLE001
-        out = {"reproduced": True, "observed": f"raised {type(e).__name__}: {str(e)[:400]}", "traceback": traceback.format_exc()[-1200:]}
-    last = ns["LAST"]
-    out["texel"] = str(last.get("grid_t"))
-    out["pretext_agp"] = ns["REPLAY_TEXT"].get("pretext_agp")
-    if last.get("outs") is not None:
-        out["outputs"] = ns["describe_outs"](last["outs"])
-    out["input"] = [(sp[0], sp[1], list(sp[2]), list(sp[3]) if len(sp) > 3 else None) for sp in last.get("specs", [])]
-    if out["reproduced"] and last.get("grid_t") is None:
-        out["spurious"] = "cut positions / scaffold ends do not lie on any texel grid with floor(t) = tf: not a map PretextView can produce (integer over-approximation of DESIGN section 4)"
-        out["reproduced"] = False
-    return out
+from vlib.props.pgen import replay_model  # noqa: E402,F401
 
 
 BOUNDS = ["<= 2 cuts, <= 5 rows per scaffold, <= 2 input scaffolds; all lengths, cuts, roundings and the texel unbounded symbolic"]
